@@ -1404,7 +1404,13 @@ class SymClient(Client):
         outs = []
         for s1 in self._eval(item.context_expr, s):
             if item.optional_vars is not None:
-                v = 'ENTER(%s)' % self.term(item.context_expr, s1)
+                ce = item.context_expr
+                if isinstance(ce, ast.Call) and len(ce.args) == 1 and not ce.keywords and not isinstance(ce.args[0], ast.Starred) \
+                        and ast.unparse(ce.func) in ('contextlib.closing', 'closing', 'contextlib.nullcontext', 'nullcontext'):
+                    # library fact: closing(x).__enter__() and nullcontext(x).__enter__() return x itself
+                    v = self.term(ce.args[0], s1)
+                else:
+                    v = 'ENTER(%s)' % self.term(ce, s1)
                 s1 = self.assign(item.optional_vars, None, v, s1)
             outs.append(s1.with_ret(None))
         return outs
